@@ -31,6 +31,27 @@ CHECKS.update({
    technique="exhaustive outcome sequences x deviation-bounded stop reasons x single callback faults on 8 execute-style entry points; outcome-field oracle derived from the trace",
    text="execute() through Retry, Policy (with and without retry), RetryPolicy and async twins: ok/value/stop_reason/attempts/last_class/cause/last_exception/last_result/next_sleep_s must describe the final attempt; only cancellation-type exceptions, nested RetryExhaustedError and the caller's strategy/classifier/sleeper errors may propagate.",
    note="attempt_timeout_s=None; abort between a failure and its processing is a documented don't-care; stop_reason unchecked without retry component"),
+
+ "C08": dict(engine="E1 seq + E3 coro", cat="fault_enumeration", ref="6 C08",
+   technique="exhaustive single-fault (thorough: double-fault) injection at every callback invocation, every operation ending and every coroutine suspension point of real policy calls; spy breaker + functional probe oracle",
+   text="For 12 entry paths and both admitting breaker states (closed, half-open probe) every way an admitted call can end is enumerated: each operation ending at each attempt, each callback raising at each invocation, and CancelledError/KeyboardInterrupt/SystemExit/close() at each await. After the call the spy breaker must have a record and, once recovery_timeout_s has elapsed, the next allow() must be admitted.",
+   note="attempt_timeout_s=None; max_attempts 2 (3 thorough await family); coroutines driven by send/throw/close"),
+ "C09": dict(engine="E1 seq", cat="model_checking", ref="6 C09",
+   technique="exhaustive outcome sequences x deviation-bounded stop reasons x call sequences on a logging subclass of the real CircuitBreaker; per-call record oracle",
+   text="Policy/AsyncPolicy call/execute with and without retry: for every outcome sequence and stop reason and for sequences of calls sharing one breaker, each admitted call must make exactly one record after its last invocation: success iff a value was delivered, failure(K) with the final failure's class iff retries stopped on a failure or deferral, cancel iff aborted/cancelled; rejected calls none.",
+   note="attempt_timeout_s=None; unclassified endings accept any single record; pre-flight abort of a retry-less policy is judged under C07"),
+ "C13": dict(engine="E1 seq + E3 coro", cat="model_checking", ref="6 C13",
+   technique="exhaustive abort-poll vectors x outcome sequences x cancellation-type exceptions from operation and sleeper; cancellation injected at every coroutine suspension point; structural trace oracle",
+   text="Every first-True poll index, every attempt or sleep at which KeyboardInterrupt/SystemExit/CancelledError is raised, and every await point at which an async run is cancelled or closed: a poll must precede every attempt and every sleep, nothing is invoked after abort or cancellation, the same exception object leaves the call, the coroutine never suspends again.",
+   note="attempt_timeout_s=None; max_attempts 3 (4 thorough); 1 injection per run (2 thorough)"),
+ "C14": dict(engine="E1 seq", cat="model_checking", ref="6 C14",
+   technique="exhaustive outcome sequences x deviation-bounded stop reasons with all three sinks attached; stream-shape and tag oracle; breaker events checked against the spy breaker's return values",
+   text="Metric hook, log hook and timeline (captured or supplied) must receive the same sequence retry* terminal, the i-th retry with attempt=i and the applied delay, the terminal event matching the delivered stop reason and describing the final failure; every event returned by the breaker is emitted exactly once with attempt 0 and the breaker's state.",
+   note="attempt_timeout_s=None; attempt number of terminal events not checked; only normally-ending runs"),
+ "C16": dict(engine="E1 seq", cat="model_checking", ref="6 C16",
+   technique="exhaustive handler-decision sequences x 64 callback placements x sync/async/awaitable variants on real entry points; protocol oracle",
+   text="All sequences of SLEEP/DEFER/ABORT over the retries of a run, all 64 placements of handler/before_sleep/sleeper at policy level, call level, both or neither with distinct stub identities: one consultation of the effective handler per granted retry with the computed delay; SLEEP => before_sleep then one sleeper call then the next attempt; DEFER => SCHEDULED with next_sleep_s; ABORT => ABORTED; call-level overrides policy-level.",
+   note="attempt_timeout_s=None; max_attempts 4 (5 thorough)"),
 })
 PENDING = {
 }
